@@ -48,15 +48,21 @@
 //!              spent = quote, required = p*q*(1+fee) for a buy; spent = BASE, required = q*(1+fee) for a sell.
 //!   R-debit    on acceptance exactly the spent asset is debited by exactly `required` (total and free),
 //!              every other balance is unchanged, no balance is negative.
-//!   R-reject   on rejection no balance changes and nothing is announced. Limit orders and orders for an
-//!              instrument the exchange does not list cannot be filled as market orders: rejected.
+//!   R-reject   on rejection no balance changes and nothing is announced. Orders for an instrument the exchange does
+//!              not list cannot be filled: rejected.
+//!   R-limit    the statement speaks of market orders; a LIMIT order on a listed instrument may be (a) rejected without
+//!              any effect or (b) accepted = filled at once at its limit price under ALL the market-order rules
+//!              (accepted only with enough of the spent asset, exact debit, fresh ids, fee, one balance + one trade
+//!              announcement, reflected by snapshots / trade queries). Accepted without enough, or half-applied
+//!              (debited / announced although rejected, accepted without its announcements), is a violation.
 //!   R-fill     each accepted order yields exactly one fill: order id and trade id fresh (never issued
 //!              before), the trade echoes instrument/strategy/side/price/quantity, fees = fee * p * q (quote).
 //!   R-notify   one balance notification (the debited asset with its new balance) and one trade
 //!              notification per accepted order, none for a rejected one (layer 2: on the broadcast stream;
 //!              their relative order is not prescribed).
 //!   R-echo     the answer to an order names that order (exchange, instrument, strategy, client order id) and
-//!              repeats its terms; announcements carry the simulated exchange's id.
+//!              its side, price, quantity and kind (not compared: the time in force it reports); announcements carry the
+//!              simulated exchange's id.
 //!   R-queries  balances / snapshot equal the ledger; trade queries list exactly the accepted orders'
 //!              trades (with time >= since; a trade exactly at `since` may be listed or not).
 //! After each step the reference ledger is re-synchronised with the implementation so that one defect is
@@ -339,6 +345,12 @@ fn spend(s: &Sym, fee: Decimal, use_quote_for_sell: bool) -> Option<(&'static st
     })
 }
 
+/// `spend` for an order that is FILLED: a limit order on a listed instrument that the exchange chooses to fill (at once, in
+/// full, at its limit price) is held to the market-order rules with its own price and quantity. None = unlisted instrument.
+fn spend_filled(s: &Sym, fee: Decimal, use_quote_for_sell: bool) -> Option<(&'static str, Decimal)> {
+    spend(&Sym { limit: false, ..*s }, fee, use_quote_for_sell)
+}
+
 /// ledger after the step if the order is decided on `spent`/`required`
 fn predict(before: &Ledger, sp: Option<(&'static str, Decimal)>) -> (bool, Ledger) {
     match sp {
@@ -375,7 +387,13 @@ fn judge_open(s: &Sym, n: usize, req: &OrderRequestOpen<ExchangeId, InstrumentNa
         "market"
     };
     let accepted = o.resp.state.is_ok();
-    let sp = spend(s, fee, false);
+    // The statement speaks of market orders. A LIMIT order on a listed instrument is the exchange's choice: (a) rejected - then
+    // judged like every rejection (no effect, nothing announced) - or (b) accepted = filled at its limit price - then judged by
+    // the full market-order rules (enough iff accepted, exact debit, fresh ids, fee, one balance + one trade announcement).
+    // Never accepted without enough, never half-applied. Orders for unlisted instruments can only be rejected.
+    let as_filled = s.limit && accepted;
+    let spend_of = |use_quote: bool| if as_filled { spend_filled(s, fee, use_quote) } else { spend(s, fee, use_quote) };
+    let sp = spend_of(false);
     let (want_accept, want_after) = predict(before, sp);
     let mut ledger_viols: Vec<Viol> = Vec::new(); // violations about which asset / how much / accept-or-not
     let mut other: Vec<Viol> = Vec::new();
@@ -417,9 +435,11 @@ fn judge_open(s: &Sym, n: usize, req: &OrderRequestOpen<ExchangeId, InstrumentNa
         }
     }
     // the answer is the answer to THIS order: it names the order's exchange, instrument, strategy and client order id
-    // and repeats its terms
+    // and the order's side, price, quantity and kind (what the ledger rules are evaluated on). The time in force it reports is
+    // not compared: the statement does not say what the answer repeats, and an exchange may report the effective one
+    // (a market order executes at once whatever was requested)
     let r = o.resp;
-    if r.key != req.key || r.side != req.state.side || r.price != req.state.price || r.quantity != req.state.quantity || r.kind != req.state.kind || r.time_in_force != req.state.time_in_force {
+    if r.key != req.key || r.side != req.state.side || r.price != req.state.price || r.quantity != req.state.quantity || r.kind != req.state.kind {
         other.push((format!("C08/response/does-not-echo-order/{}", if accepted { "accepted" } else { "rejected" }), det!("{ctx_txt}; request={req:?}; response={r:?}")));
     }
     // R-notify (content of the balance announcement) + R-fill
@@ -470,7 +490,7 @@ fn judge_open(s: &Sym, n: usize, req: &OrderRequestOpen<ExchangeId, InstrumentNa
         None => None,
     };
     if !ledger_viols.is_empty() && s.sell && sp.is_some() {
-        let alt = spend(s, fee, true);
+        let alt = spend_of(true);
         let (alt_accept, alt_after) = predict(before, alt);
         let ledger_ok = o.after.map(|a| *a == alt_after).unwrap_or(true);
         let announce_ok = !accepted
@@ -511,7 +531,12 @@ fn judge_abandoned(
     issued: &mut Issued,
 ) -> (Vec<Viol>, Option<Ledger>, bool) {
     let side = if s.sell { "sell" } else { "buy" };
-    let sp = spend(s, fee, false);
+    // a LIMIT order may be rejected (nothing announced) or filled under the market rules; without an answer the exchange's
+    // choice shows in the announcements: a fill that echoes this order was announced => it is held to the market rules
+    // (enough balance or it must not have been filled; one balance + one trade announcement); none => judged as rejected
+    let as_filled = s.limit && !trades.is_empty();
+    let spend_of = |use_quote: bool| if as_filled { spend_filled(s, fee, use_quote) } else { spend(s, fee, use_quote) };
+    let sp = spend_of(false);
     let (want_accept, want_after) = predict(before, sp);
     let ctx_txt = format!(
         "request #{n} {s:?} fee={fee} ledger before={before:?}; the client dropped the open_order call ({how:?}) after the request had reached the exchange; announcements attributed to it: balances={:?} trades={:?}",
@@ -531,7 +556,7 @@ fn judge_abandoned(
     let mut viols: Vec<Viol> = Vec::new();
     let mut next = Some(want_after.clone());
     if !fits(sp) {
-        let alt = spend(s, fee, true);
+        let alt = spend_of(true);
         // (folded only on positive evidence - announcements the quote-asset explanation predicts; "nothing was
         // announced" is reported as what it is)
         if s.sell && sp.is_some() && predict(before, alt).0 && fits(alt) {
@@ -1022,7 +1047,7 @@ fn env_judge(cfg: &Config, via: &str, unique_strategy: bool, ops: Vec<(Op, u64)>
     let initial: Ledger = ASSETS.iter().zip(cfg.balances.iter()).map(|(a, b)| (a.to_string(), (b.parse().unwrap(), b.parse().unwrap()))).collect();
     let mut ledger: Option<Ledger> = Some(initial);
     let mut issued = Issued::default();
-    // trades of accepted orders so far (as announced by the response: id, exchange time)
+    // fills of accepted orders so far (order id, exchange time of the fill, op)
     let mut fills: Vec<(String, DateTime<Utc>, usize)> = Vec::new();
     let mut responses = 0u64;
     for (k, (op, sent)) in ops.iter().enumerate() {
@@ -1046,7 +1071,8 @@ fn env_judge(cfg: &Config, via: &str, unique_strategy: bool, ops: Vec<(Op, u64)>
             let expl: Vec<(bool, Ledger, &'static str)> = [false, true]
                 .into_iter()
                 .filter(|use_quote| !*use_quote || s.sell)
-                .filter_map(|use_quote| spend(s, fee, use_quote))
+                // (a limit order the exchange chose to fill is recognised like a market order: by the fill that echoes it)
+                .filter_map(|use_quote| spend_filled(s, fee, use_quote))
                 .map(|sp| {
                     let (acc, after) = predict(&before, Some(sp));
                     (acc, after, sp.0)
@@ -1069,7 +1095,8 @@ fn env_judge(cfg: &Config, via: &str, unique_strategy: bool, ops: Vec<(Op, u64)>
                 // the balance announcement the statement predicts (balances only ever fall, so asset + new value name
                 // one order); the one "the sell spent quote" predicts only when a fill of this order was announced
                 // (without that evidence the value could as well be a later order's)
-                let pick = expl.iter().enumerate().filter(|(x, e)| e.0 && (*x == 0 || !trades.is_empty())).find_map(|(_, (_, after, asset))| {
+                // (likewise a limit order's balance announcement: only next to its fill - a rejected limit order owns none)
+                let pick = expl.iter().enumerate().filter(|(x, e)| e.0 && ((*x == 0 && !s.limit) || !trades.is_empty())).find_map(|(_, (_, after, asset))| {
                     (0..ann_balances.len()).find(|i| {
                         let b = ann_balances[*i];
                         !used_b[*i] && b.asset.name().as_str() == *asset && (b.balance.total, b.balance.free) == after[*asset]
@@ -1080,8 +1107,8 @@ fn env_judge(cfg: &Config, via: &str, unique_strategy: bool, ops: Vec<(Op, u64)>
                     balances.push(ann_balances[i]);
                 }
             }
-            for t in &trades {
-                fills.push((t.id.0.to_string(), t.time_exchange, k));
+            if let Some(t) = trades.first() {
+                fills.push((t.order_id.0.to_string(), t.time_exchange, k));
             }
             let (v, next, accepted) = judge_abandoned(s, k, *how, &req, fee, &before, &balances, &trades, &mut issued);
             if accepted {
@@ -1125,8 +1152,8 @@ fn env_judge(cfg: &Config, via: &str, unique_strategy: bool, ops: Vec<(Op, u64)>
                     let mut pick: Option<usize> = None;
                     if let Some(before) = &ledger {
                         for use_quote in [false, true] {
-                            if let Some((asset, _)) = spend(s, fee, use_quote) {
-                                let (_, after) = predict(before, spend(s, fee, use_quote));
+                            if let Some((asset, _)) = spend_filled(s, fee, use_quote) {
+                                let (_, after) = predict(before, spend_filled(s, fee, use_quote));
                                 pick = pick.or_else(|| {
                                     (0..ann_balances.len()).find(|i| {
                                         let b = ann_balances[*i];
@@ -1141,7 +1168,9 @@ fn env_judge(cfg: &Config, via: &str, unique_strategy: bool, ops: Vec<(Op, u64)>
                         used_b[i] = true;
                         balances.push(ann_balances[i]);
                     }
-                    fills.push((open.id.0.to_string(), open.time_exchange, k));
+                    // (a fill is known to later trade queries by the ORDER it belongs to - the statement wants order and trade
+                    // ids fresh, not equal - and by the fill's own time where it was announced)
+                    fills.push((open.id.0.to_string(), trades.first().map(|t| t.time_exchange).unwrap_or(open.time_exchange), k));
                 }
                 match &ledger {
                     Some(before) => {
@@ -1159,16 +1188,20 @@ fn env_judge(cfg: &Config, via: &str, unique_strategy: bool, ops: Vec<(Op, u64)>
                     Op::TradesSinceFirst => since_first(ops[0].1),
                     _ => t0() + TimeDelta::milliseconds((*sent + LATENCY_MS / 2) as i64),
                 };
-                let mut got: Vec<String> = list.iter().map(|t| t.id.0.to_string()).collect();
+                // the listed fills, each named by the order it fills (`fills` holds order ids); a listing that repeats an
+                // order or a trade id lists something twice
+                let mut got: Vec<String> = list.iter().map(|t| t.order_id.0.to_string()).collect();
                 got.sort();
+                let mut got_trade_ids: Vec<String> = list.iter().map(|t| t.id.0.to_string()).collect();
+                got_trade_ids.sort();
                 let must: Vec<String> = fills.iter().filter(|f| f.1 > since).map(|f| f.0.clone()).collect();
                 let may: Vec<String> = fills.iter().filter(|f| f.1 >= since).map(|f| f.0.clone()).collect();
-                let dup = got.windows(2).any(|w| w[0] == w[1]);
+                let dup = got.windows(2).any(|w| w[0] == w[1]) || got_trade_ids.windows(2).any(|w| w[0] == w[1]);
                 let missing = must.iter().any(|m| !got.contains(m));
                 let extra = got.iter().filter(|g| !may.contains(g)).count() > unknown_fills;
                 if dup || missing || extra {
                     let what = if dup { "duplicate" } else if missing { "missing" } else { "extra" };
-                    viols.push((format!("C08/env/trades-query/{what}"), format!("op #{k} {op:?} (since={since}) listed trade ids {got:?}; accepted so far (id, time, op)={fills:?}; {seq_txt}")));
+                    viols.push((format!("C08/env/trades-query/{what}"), format!("op #{k} {op:?} (since={since}) listed fills of orders {got:?} (trade ids {got_trade_ids:?}); accepted so far (order id, time, op)={fills:?}; {seq_txt}")));
                 }
             }
             (Op::Balances, Resp::Balances(list)) => {
@@ -1778,7 +1811,7 @@ pub fn run(ctx: &Ctx) -> Outcome {
                 "slow_exchange": format!("one configuration with latency {SLOW_LATENCY_MS} ms > the manager's request timeout {MANAGER_TIMEOUT_MS} ms: every call is dropped by the manager before the answer; pacing same instant / after the timeout / after the latency"),
                 "what": "IndexedInstruments [Kraken (tracked, no link) x2, BinanceSpot x3, Okx (tracked, no link; its one instrument is named like a BinanceSpot one)] -> ExecutionBuilder::add_mock -> build -> init; orders sent through the MultiExchangeTxMap, answers and announcements read (indexed) from the merged account channel and judged by the same ledger oracle",
             },
-            "rule": "ledger model from the statement (buy spends quote p*q*(1+fee), sell spends base q*(1+fee); accept iff enough; exact debit; rejection without effect; fresh ids; fee percentage; one balance + one trade announcement; queries reflect accepted orders) checked after every step of every request sequence <= max_len for every balance/fee configuration on the real MockExchange::open_order/account_snapshot, on every op sequence x pacing x {call awaited, call abandoned at once, abandoned half a latency later} through MockExecution -> MockExchange::run (+ one long scripted run; an abandoned call's accepted order must still be announced once by a balance and a trade notification with fresh ids and be reflected by later queries), and on every order sequence x pacing through the builder path (ExecutionBuilder::add_mock -> ExecutionManager -> MockExecution -> MockExchange configured by the builder; one configuration with an exchange slower than the manager's request timeout, so that the manager abandons every call)",
+            "rule": "ledger model from the statement (buy spends quote p*q*(1+fee), sell spends base q*(1+fee); accept iff enough - a limit order may also be rejected although enough; exact debit; rejection without effect; fresh ids; fee percentage; one balance + one trade announcement; queries reflect accepted orders) checked after every step of every request sequence <= max_len for every balance/fee configuration on the real MockExchange::open_order/account_snapshot, on every op sequence x pacing x {call awaited, call abandoned at once, abandoned half a latency later} through MockExecution -> MockExchange::run (+ one long scripted run; an abandoned call's accepted order must still be announced once by a balance and a trade notification with fresh ids and be reflected by later queries), and on every order sequence x pacing through the builder path (ExecutionBuilder::add_mock -> ExecutionManager -> MockExecution -> MockExchange configured by the builder; one configuration with an exchange slower than the manager's request timeout, so that the manager abandons every call)",
             "samples": samples.lock().unwrap().values().cloned().collect::<Vec<_>>(),
         }),
         assumptions: vec![
@@ -1786,11 +1819,11 @@ pub fn run(ctx: &Ctx) -> Outcome {
             "prices and quantities are positive; initial total == free (market orders only, as the code asserts)".into(),
             "every asset of every listed instrument has an initial balance entry (the code panics otherwise by design)".into(),
             "client order ids are unique, except in layer 1c where every order of a sequence carries the same client order id and strategy (the statement's rules hold for any sequence of orders: accepted iff enough, ids fresh)".into(),
-            "limit orders and orders for unlisted instruments are expected to be rejected without effect (the exchange only fills market orders on listed instruments)".into(),
+            "orders for unlisted instruments are expected to be rejected without effect; a limit order on a listed instrument may be rejected without effect or accepted (filled at once at its limit price) under the full market-order rules - never accepted without enough balance, never half-applied (the statement speaks of market orders only)".into(),
             "the relative order of the balance and the trade announcement is not prescribed; a trade exactly at `since` may or may not be listed; a trade query names an absolute `since` (one of the queries puts it 1 ms after the first op's exchange time, i.e. inside the history)".into(),
             "asset names on the exchange are upper case, i.e. differ from the lower-case internal names the index derives from them; layer 3 has a third exchange (Okx, tracked, no link, after the simulated one) that lists another market under an instrument name the simulated exchange also uses".into(),
             "layer 2: requests are processed in the order they were sent (single client)".into(),
-            "a market order is a market order whatever its time in force (IOC, FOK, GTC, GTD are all in the alphabet); the answer to an order repeats the order's key and terms".into(),
+            "a market order is a market order whatever its time in force (IOC, FOK, GTC, GTD are all in the alphabet); the answer to an order repeats the order's key, side, price, quantity and kind (the time in force it reports is not compared)".into(),
             "an open-order call the client abandons AFTER its request reached the exchange is an order like any other: whether it is accepted is decided by the ledger (its answer is neither demanded nor used), and an accepted one is owed its one balance and one trade announcement; its announcements are recognised by content (trade: instrument, strategy, side, price, quantity, not carrying an awaited order's id; balance: the debited asset with its new value)".into(),
             "layer 3: every order of a sequence has its own strategy id (a fully filled order comes back without its exchange order id; its fill is found through the strategy it echoes)".into(),
         ],
